@@ -138,6 +138,12 @@ func pendingExpiryScenario(c *sup.Ctx, r *rng.R) {
 	case 1:
 		run.Writer.Point, run.Writer.Nth = "txn.postcommit", 3+r.Intn(4)
 	}
+	if (c.Local/3)%2 == 1 {
+		// the deadline passes while the bucket is closed: it is overdue at reopen and must go within the bound
+		run.DelayReopen = 2600
+		run.Reader.WaitExp = 3000
+		c.Count("reopens_after_the_deadline", 1)
+	}
 	o := run.Execute()
 	c.Count("pending_expiry_reopens", 1)
 	if o.Opened && len(o.Reader.ExpGoneMs) > 0 {
